@@ -34,8 +34,8 @@ SPEC = {
     "level_note": "Single writer only: several concurrent writers (CAS on the limit and on bucket heads, dead records) are "
                   "C04's subject and are not proved here. Sequences are restricted to files at least 64 KiB below the 4 GiB "
                   "cap of the format (hypothesis all_small / small): beyond it place and extend wrap in uint32 "
-                  "(C10_place_wraps_near_4GiB), not reachable in tests. Names of 0 bytes are outside the property "
-                  "(C10_empty_name_boundary: the library then writes a record no reader accepts). The top byte of the name "
+                  "(C10_place_wraps_near_4GiB), not reachable in tests. The empty name and names over 4096 bytes are "
+                  "refused by newCounter and leave the file unchanged (C10_refused_names). The top byte of the name "
                   "length word (0xff tag written by the library, masked by readers) is not in the layout comment; the "
                   "checker accepts any tag. Trusted: Coq kernel+VM, extraction, OCaml glue, Go harness and its independent "
                   "encoder; mmap/MAP_SHARED visibility and os.File.WriteAt semantics are modelled as plain byte-list "
@@ -45,7 +45,7 @@ SPEC = {
         "one writer at a time: the mapping is the file (MAP_SHARED), WriteAt extends with zeros; sampled by the suite",
         "files stay at least 64 KiB below the 4 GiB cap implied by the format's uint32 offsets",
         "metadata is at most 512 bytes, has no NUL byte and consists of \"key: value\" lines (what rotate1 writes)",
-        "counter names have 1..4096 bytes (longer ones are refused by the code, the empty one is outside the property)",
+        "counter names of 1..4096 bytes get a record; the empty name and longer ones are refused (modelled and proved harmless)",
         "encode/parse round trip: no counter name is the expansion (DecodeStack) of another counter's name, see C06",
     ],
     "trusted_base": [],
